@@ -1,7 +1,7 @@
 import RpycModel.Box.Lemmas
 /-
 Helper definitions and lemmas for C03: the relation between a value and what arrives at the peer, the effect
-of `box` / `unbox` on the counts of Part 1, proxy identity, and the label tree as a brine value.
+of `box` / `unboxOnePass` on the counts of Part 1, proxy identity, and the label tree as a brine value.
 -/
 namespace Rpyc.Box
 open Rpyc
@@ -44,24 +44,24 @@ theorem unboxRef_val (s : Side) (id : Id) : ∃ pid, (unboxRef s id).1 = .proxy 
   · exact ⟨s.pid id, rfl⟩
 
 mutual
-/-- `unbox ∘ box`: whatever `_box` produced, the peer's `_unbox` accepts it and yields what `Arrives` describes —
+/-- `unboxOnePass ∘ box`: whatever `_box` produced, the peer's `_unbox` accepts it and yields what `Arrives` describes —
 provided the objects the value's proxies refer to are still in the peer's table (C10: `alive_while_held`) -/
-theorem unbox_box_aux : ∀ (x : PyVal) (t t' : Tbl) (l : Label) (s : Side),
+theorem unbox_box_aux1 : ∀ (x : PyVal) (t t' : Tbl) (l : Label) (s : Side),
     box t x = .ok (l, t') → (∀ id ∈ x.proxies, s.tbl id ≠ none) →
-    ∃ y s', unbox s l = .ok (y, s') ∧ Arrives x y ∧ s'.tbl = s.tbl
+    ∃ y s', unboxOnePass s l = .ok (y, s') ∧ Arrives x y ∧ s'.tbl = s.tbl
   | .imm v, t, t', l, s, hb, _ => by
     simp only [box] at hb
     split at hb
     · rename_i hd
       cases hb
-      exact ⟨.imm v, s, by simp [unbox], Arrives.val (.imm v) (by simpa [PyVal.dumpable] using hd), rfl⟩
+      exact ⟨.imm v, s, by simp [unboxOnePass], Arrives.val (.imm v) (by simpa [PyVal.dumpable] using hd), rfl⟩
     · cases hb
   | .tup xs, t, t', l, s, hb, hres => by
     simp only [box] at hb
     split at hb
     · rename_i hd
       cases hb
-      exact ⟨.imm (.tuple (PyVal.toValL xs)), s, by simp [unbox],
+      exact ⟨.imm (.tuple (PyVal.toValL xs)), s, by simp [unboxOnePass],
         Arrives.val (.tup xs) (by simpa [PyVal.dumpable] using hd), rfl⟩
     · cases hbl : boxL t xs with
       | error e => simp only [hbl] at hb; cases hb
@@ -69,19 +69,19 @@ theorem unbox_box_aux : ∀ (x : PyVal) (t t' : Tbl) (l : Label) (s : Side),
         obtain ⟨ls, t2⟩ := p
         simp only [hbl] at hb
         cases hb
-        obtain ⟨ys, s', hu, ha, ht⟩ := unboxL_boxL_aux xs t t' ls s hbl (by simpa [PyVal.proxies] using hres)
-        exact ⟨.tup ys, s', by simp [unbox, hu], Arrives.tup xs ys ha, ht⟩
+        obtain ⟨ys, s', hu, ha, ht⟩ := unboxL_boxL_aux1 xs t t' ls s hbl (by simpa [PyVal.proxies] using hres)
+        exact ⟨.tup ys, s', by simp [unboxOnePass, hu], Arrives.tup xs ys ha, ht⟩
   | .obj id, t, t', l, s, hb, _ => by
     simp only [box] at hb
     cases hb
     obtain ⟨pid, hp⟩ := unboxRef_val s id
-    refine ⟨(unboxRef s id).1, (unboxRef s id).2, by simp [unbox], ?_, unboxRef_tbl s id⟩
+    refine ⟨(unboxRef s id).1, (unboxRef s id).2, by simp [unboxOnePass], ?_, unboxRef_tbl s id⟩
     rw [hp]; exact Arrives.obj id pid
   | .sub v id, t, t', l, s, hb, _ => by
     simp only [box] at hb
     cases hb
     obtain ⟨pid, hp⟩ := unboxRef_val s id
-    refine ⟨(unboxRef s id).1, (unboxRef s id).2, by simp [unbox], ?_, unboxRef_tbl s id⟩
+    refine ⟨(unboxRef s id).1, (unboxRef s id).2, by simp [unboxOnePass], ?_, unboxRef_tbl s id⟩
     rw [hp]; exact Arrives.sub v id pid
   | .proxy id pid, t, t', l, s, hb, hres => by
     simp only [box] at hb
@@ -89,14 +89,14 @@ theorem unbox_box_aux : ∀ (x : PyVal) (t t' : Tbl) (l : Label) (s : Side),
     have hne := hres id (by simp [PyVal.proxies])
     cases ht : s.tbl id with
     | none => exact absurd ht hne
-    | some n => exact ⟨.obj id, s, by simp [unbox, ht], Arrives.back id pid, rfl⟩
-theorem unboxL_boxL_aux : ∀ (xs : List PyVal) (t t' : Tbl) (ls : List Label) (s : Side),
+    | some n => exact ⟨.obj id, s, by simp [unboxOnePass, ht], Arrives.back id pid, rfl⟩
+theorem unboxL_boxL_aux1 : ∀ (xs : List PyVal) (t t' : Tbl) (ls : List Label) (s : Side),
     boxL t xs = .ok (ls, t') → (∀ id ∈ PyVal.proxiesL xs, s.tbl id ≠ none) →
-    ∃ ys s', unboxL s ls = .ok (ys, s') ∧ ArrivesL xs ys ∧ s'.tbl = s.tbl
+    ∃ ys s', unboxOnePassL s ls = .ok (ys, s') ∧ ArrivesL xs ys ∧ s'.tbl = s.tbl
   | [], t, t', ls, s, hb, _ => by
     simp only [boxL] at hb
     cases hb
-    exact ⟨[], s, by simp [unboxL], ArrivesL.nil, rfl⟩
+    exact ⟨[], s, by simp [unboxOnePassL], ArrivesL.nil, rfl⟩
   | x :: xs, t, t', ls, s, hb, hres => by
     simp only [boxL] at hb
     cases hbx : box t x with
@@ -110,11 +110,11 @@ theorem unboxL_boxL_aux : ∀ (xs : List PyVal) (t t' : Tbl) (ls : List Label) (
         obtain ⟨ls', t2⟩ := q
         simp only [hbl] at hb
         cases hb
-        obtain ⟨y, s1, hu, ha, ht⟩ := unbox_box_aux x t t1 l s hbx
+        obtain ⟨y, s1, hu, ha, ht⟩ := unbox_box_aux1 x t t1 l s hbx
           (fun id hid => hres id (by simp [PyVal.proxiesL, hid]))
-        obtain ⟨ys, s2, hul, hal, htl⟩ := unboxL_boxL_aux xs t1 t' ls' s1 hbl
+        obtain ⟨ys, s2, hul, hal, htl⟩ := unboxL_boxL_aux1 xs t1 t' ls' s1 hbl
           (fun id hid => by rw [ht]; exact hres id (by simp [PyVal.proxiesL, hid]))
-        exact ⟨y :: ys, s2, by simp [unboxL, hu, hul], ArrivesL.cons x y xs ys ha hal, by rw [htl, ht]⟩
+        exact ⟨y :: ys, s2, by simp [unboxOnePassL, hu, hul], ArrivesL.cons x y xs ys ha hal, by rw [htl, ht]⟩
 end
 
 /-! ### what boxing and unboxing do to the counts of Part 1 -/
@@ -169,47 +169,47 @@ end
 
 mutual
 /-- `_unbox` counts exactly the by-reference keys of the label tree, in order, and never touches the table -/
-theorem unbox_counts : ∀ (l : Label) (s s' : Side) (y : PyVal), unbox s l = .ok (y, s') →
+theorem unbox_counts1 : ∀ (l : Label) (s s' : Side) (y : PyVal), unboxOnePass s l = .ok (y, s') →
     s'.px = recvAll s.px l.remoteRefs ∧ s'.tbl = s.tbl
-  | .value v, s, s', y, hu => by simp only [unbox] at hu; cases hu; simp [Label.remoteRefs, recvAll]
+  | .value v, s, s', y, hu => by simp only [unboxOnePass] at hu; cases hu; simp [Label.remoteRefs, recvAll]
   | .tuple ls, s, s', y, hu => by
-    simp only [unbox] at hu
-    cases hul : unboxL s ls with
+    simp only [unboxOnePass] at hu
+    cases hul : unboxOnePassL s ls with
     | error e => simp only [hul] at hu; cases hu
     | ok p =>
       obtain ⟨xs, s2⟩ := p
       simp only [hul] at hu
       cases hu
-      simpa [Label.remoteRefs] using unboxL_counts ls s s' xs hul
+      simpa [Label.remoteRefs] using unboxL_counts1 ls s s' xs hul
   | .localRef id, s, s', y, hu => by
-    simp only [unbox] at hu
+    simp only [unboxOnePass] at hu
     cases ht : s.tbl id with
     | none => simp only [ht] at hu; cases hu
     | some n => simp only [ht] at hu; cases hu; simp [Label.remoteRefs, recvAll]
   | .remoteRef id, s, s', y, hu => by
-    simp only [unbox, Except.ok.injEq] at hu
+    simp only [unboxOnePass, Except.ok.injEq] at hu
     have hs : (unboxRef s id).2 = s' := by rw [hu]
     subst hs
     exact ⟨by rw [unboxRef_px]; simp [Label.remoteRefs, recvAll], unboxRef_tbl s id⟩
-  | .other tag, s, s', y, hu => by simp only [unbox] at hu; cases hu
-theorem unboxL_counts : ∀ (ls : List Label) (s s' : Side) (ys : List PyVal), unboxL s ls = .ok (ys, s') →
+  | .other tag, s, s', y, hu => by simp only [unboxOnePass] at hu; cases hu
+theorem unboxL_counts1 : ∀ (ls : List Label) (s s' : Side) (ys : List PyVal), unboxOnePassL s ls = .ok (ys, s') →
     s'.px = recvAll s.px (Label.remoteRefsL ls) ∧ s'.tbl = s.tbl
-  | [], s, s', ys, hu => by simp only [unboxL] at hu; cases hu; simp [Label.remoteRefsL, recvAll]
+  | [], s, s', ys, hu => by simp only [unboxOnePassL] at hu; cases hu; simp [Label.remoteRefsL, recvAll]
   | l :: ls, s, s', ys, hu => by
-    simp only [unboxL] at hu
-    cases hux : unbox s l with
+    simp only [unboxOnePassL] at hu
+    cases hux : unboxOnePass s l with
     | error e => simp only [hux] at hu; cases hu
     | ok p =>
       obtain ⟨x, s1⟩ := p
       simp only [hux] at hu
-      cases hul : unboxL s1 ls with
+      cases hul : unboxOnePassL s1 ls with
       | error e => simp only [hul] at hu; cases hu
       | ok q =>
         obtain ⟨xs, s2⟩ := q
         simp only [hul] at hu
         cases hu
-        obtain ⟨h1, h2⟩ := unbox_counts l s s1 x hux
-        obtain ⟨h3, h4⟩ := unboxL_counts ls s1 s' xs hul
+        obtain ⟨h1, h2⟩ := unbox_counts1 l s s1 x hux
+        obtain ⟨h3, h4⟩ := unboxL_counts1 ls s1 s' xs hul
         exact ⟨by rw [Label.remoteRefsL, recvAll_append, ← h1]; exact h3, by rw [h4, h2]⟩
 end
 
@@ -298,52 +298,282 @@ theorem unboxRef_keeps (s : Side) (id : Id) (h : PxInv s) :
 
 mutual
 /-- unboxing any message: live proxies keep their identity and stay alive; the invariant is kept -/
-theorem unbox_keeps : ∀ (l : Label) (s s' : Side) (y : PyVal), unbox s l = .ok (y, s') → PxInv s →
+theorem unbox_keeps1 : ∀ (l : Label) (s s' : Side) (y : PyVal), unboxOnePass s l = .ok (y, s') → PxInv s →
     PxInv s' ∧ s.next ≤ s'.next ∧ (∀ k, s.px k ≠ none → s'.pid k = s.pid k ∧ s'.px k ≠ none)
-  | .value v, s, s', y, hu, h => by simp only [unbox] at hu; cases hu; exact ⟨h, Nat.le_refl _, fun k hk => ⟨rfl, hk⟩⟩
+  | .value v, s, s', y, hu, h => by simp only [unboxOnePass] at hu; cases hu; exact ⟨h, Nat.le_refl _, fun k hk => ⟨rfl, hk⟩⟩
   | .tuple ls, s, s', y, hu, h => by
-    simp only [unbox] at hu
-    cases hul : unboxL s ls with
+    simp only [unboxOnePass] at hu
+    cases hul : unboxOnePassL s ls with
     | error e => simp only [hul] at hu; cases hu
     | ok p =>
       obtain ⟨xs, s2⟩ := p
       simp only [hul] at hu
       cases hu
-      exact unboxL_keeps ls s s' xs hul h
+      exact unboxL_keeps1 ls s s' xs hul h
   | .localRef id, s, s', y, hu, h => by
-    simp only [unbox] at hu
+    simp only [unboxOnePass] at hu
     cases ht : s.tbl id with
     | none => simp only [ht] at hu; cases hu
     | some n => simp only [ht] at hu; cases hu; exact ⟨h, Nat.le_refl _, fun k hk => ⟨rfl, hk⟩⟩
   | .remoteRef id, s, s', y, hu, h => by
-    simp only [unbox, Except.ok.injEq] at hu
+    simp only [unboxOnePass, Except.ok.injEq] at hu
     have hs : (unboxRef s id).2 = s' := by rw [hu]
     subst hs
     exact unboxRef_keeps s id h
-  | .other tag, s, s', y, hu, h => by simp only [unbox] at hu; cases hu
-theorem unboxL_keeps : ∀ (ls : List Label) (s s' : Side) (ys : List PyVal), unboxL s ls = .ok (ys, s') → PxInv s →
+  | .other tag, s, s', y, hu, h => by simp only [unboxOnePass] at hu; cases hu
+theorem unboxL_keeps1 : ∀ (ls : List Label) (s s' : Side) (ys : List PyVal), unboxOnePassL s ls = .ok (ys, s') → PxInv s →
     PxInv s' ∧ s.next ≤ s'.next ∧ (∀ k, s.px k ≠ none → s'.pid k = s.pid k ∧ s'.px k ≠ none)
-  | [], s, s', ys, hu, h => by simp only [unboxL] at hu; cases hu; exact ⟨h, Nat.le_refl _, fun k hk => ⟨rfl, hk⟩⟩
+  | [], s, s', ys, hu, h => by simp only [unboxOnePassL] at hu; cases hu; exact ⟨h, Nat.le_refl _, fun k hk => ⟨rfl, hk⟩⟩
   | l :: ls, s, s', ys, hu, h => by
-    simp only [unboxL] at hu
-    cases hux : unbox s l with
+    simp only [unboxOnePassL] at hu
+    cases hux : unboxOnePass s l with
     | error e => simp only [hux] at hu; cases hu
     | ok p =>
       obtain ⟨x, s1⟩ := p
       simp only [hux] at hu
-      cases hul : unboxL s1 ls with
+      cases hul : unboxOnePassL s1 ls with
       | error e => simp only [hul] at hu; cases hu
       | ok q =>
         obtain ⟨xs, s2⟩ := q
         simp only [hul] at hu
         cases hu
-        obtain ⟨h1, n1, k1⟩ := unbox_keeps l s s1 x hux h
-        obtain ⟨h2, n2, k2⟩ := unboxL_keeps ls s1 s' xs hul h1
+        obtain ⟨h1, n1, k1⟩ := unbox_keeps1 l s s1 x hux h
+        obtain ⟨h2, n2, k2⟩ := unboxL_keeps1 ls s1 s' xs hul h1
         refine ⟨h2, Nat.le_trans n1 n2, ?_⟩
         intro k hk
         obtain ⟨a, b⟩ := k1 k hk
         obtain ⟨c, d⟩ := k2 k b
         exact ⟨by rw [c, a], d⟩
+end
+
+/-! ### the two-pass `_unbox` succeeds exactly when the one-pass walk does, with the same result -/
+
+mutual
+theorem create_tbl : ∀ (r : RLabel) (s s' : Side) (y : PyVal), create s r = .ok (y, s') → s'.tbl = s.tbl
+  | .value v, s, s', y, h => by simp only [create] at h; cases h; rfl
+  | .tuple rs, s, s', y, h => by
+    simp only [create] at h
+    cases hc : createL s rs with
+    | error e => simp only [hc] at h; cases h
+    | ok p => obtain ⟨xs, s2⟩ := p; simp only [hc] at h; cases h; exact createL_tbl rs s s' xs hc
+  | .resolved id, s, s', y, h => by simp only [create] at h; cases h; rfl
+  | .remoteRef id, s, s', y, h => by
+    simp only [create, Except.ok.injEq] at h
+    have hs : (unboxRef s id).2 = s' := by rw [h]
+    subst hs; exact unboxRef_tbl s id
+  | .other tag, s, s', y, h => by simp only [create] at h; cases h
+theorem createL_tbl : ∀ (rs : List RLabel) (s s' : Side) (ys : List PyVal), createL s rs = .ok (ys, s') → s'.tbl = s.tbl
+  | [], s, s', ys, h => by simp only [createL] at h; cases h; rfl
+  | r :: rs, s, s', ys, h => by
+    simp only [createL] at h
+    cases hc : create s r with
+    | error e => simp only [hc] at h; cases h
+    | ok p =>
+      obtain ⟨x, s1⟩ := p
+      simp only [hc] at h
+      cases hl : createL s1 rs with
+      | error e => simp only [hl] at h; cases h
+      | ok q =>
+        obtain ⟨xs, s2⟩ := q
+        simp only [hl] at h
+        cases h
+        rw [createL_tbl rs s1 s' xs hl, create_tbl r s s1 x hc]
+end
+
+mutual
+theorem twoPass_of_onePass : ∀ (l : Label) (s s' : Side) (y : PyVal), unboxOnePass s l = .ok (y, s') →
+    ∃ r, resolve s.tbl l = .ok r ∧ create s r = .ok (y, s')
+  | .value v, s, s', y, h => by simp only [unboxOnePass] at h; cases h; exact ⟨.value v, by simp [resolve], by simp [create]⟩
+  | .tuple ls, s, s', y, h => by
+    simp only [unboxOnePass] at h
+    cases hl : unboxOnePassL s ls with
+    | error e => simp only [hl] at h; cases h
+    | ok p =>
+      obtain ⟨xs, s2⟩ := p
+      simp only [hl] at h
+      cases h
+      obtain ⟨rs, h1, h2⟩ := twoPassL_of_onePassL ls s s' xs hl
+      exact ⟨.tuple rs, by simp [resolve, h1], by simp [create, h2]⟩
+  | .localRef id, s, s', y, h => by
+    simp only [unboxOnePass] at h
+    cases ht : s.tbl id with
+    | none => simp only [ht] at h; cases h
+    | some n => simp only [ht] at h; cases h; exact ⟨.resolved id, by simp [resolve, ht], by simp [create]⟩
+  | .remoteRef id, s, s', y, h => by
+    simp only [unboxOnePass] at h
+    exact ⟨.remoteRef id, by simp [resolve], by simpa [create] using h⟩
+  | .other tag, s, s', y, h => by simp only [unboxOnePass] at h; cases h
+theorem twoPassL_of_onePassL : ∀ (ls : List Label) (s s' : Side) (ys : List PyVal), unboxOnePassL s ls = .ok (ys, s') →
+    ∃ rs, resolveL s.tbl ls = .ok rs ∧ createL s rs = .ok (ys, s')
+  | [], s, s', ys, h => by simp only [unboxOnePassL] at h; cases h; exact ⟨[], by simp [resolveL], by simp [createL]⟩
+  | l :: ls, s, s', ys, h => by
+    simp only [unboxOnePassL] at h
+    cases hx : unboxOnePass s l with
+    | error e => simp only [hx] at h; cases h
+    | ok p =>
+      obtain ⟨x, s1⟩ := p
+      simp only [hx] at h
+      cases hl : unboxOnePassL s1 ls with
+      | error e => simp only [hl] at h; cases h
+      | ok q =>
+        obtain ⟨xs, s2⟩ := q
+        simp only [hl] at h
+        cases h
+        obtain ⟨r, h1, h2⟩ := twoPass_of_onePass l s s1 x hx
+        obtain ⟨rs, h3, h4⟩ := twoPassL_of_onePassL ls s1 s' xs hl
+        rw [(unbox_counts1 l s s1 x hx).2] at h3
+        exact ⟨r :: rs, by simp [resolveL, h1, h3], by simp [createL, h2, h4]⟩
+end
+
+mutual
+theorem onePass_of_twoPass : ∀ (l : Label) (r : RLabel) (s s' : Side) (y : PyVal),
+    resolve s.tbl l = .ok r → create s r = .ok (y, s') → unboxOnePass s l = .ok (y, s')
+  | .value v, r, s, s', y, h1, h2 => by
+    simp only [resolve] at h1; cases h1
+    simpa [create, unboxOnePass] using h2
+  | .tuple ls, r, s, s', y, h1, h2 => by
+    simp only [resolve] at h1
+    cases hr : resolveL s.tbl ls with
+    | error e => simp only [hr] at h1; cases h1
+    | ok rs =>
+      simp only [hr] at h1; cases h1
+      simp only [create] at h2
+      cases hc : createL s rs with
+      | error e => simp only [hc] at h2; cases h2
+      | ok p =>
+        obtain ⟨xs, s2⟩ := p
+        simp only [hc] at h2; cases h2
+        simp [unboxOnePass, onePassL_of_twoPassL ls rs s s' xs hr hc]
+  | .localRef id, r, s, s', y, h1, h2 => by
+    simp only [resolve] at h1
+    cases ht : s.tbl id with
+    | none => simp only [ht] at h1; cases h1
+    | some n =>
+      simp only [ht] at h1; cases h1
+      simp only [create] at h2
+      simpa [unboxOnePass, ht] using h2
+  | .remoteRef id, r, s, s', y, h1, h2 => by
+    simp only [resolve] at h1; cases h1
+    simpa [create, unboxOnePass] using h2
+  | .other tag, r, s, s', y, h1, h2 => by
+    simp only [resolve] at h1; cases h1
+    simp only [create] at h2; cases h2
+theorem onePassL_of_twoPassL : ∀ (ls : List Label) (rs : List RLabel) (s s' : Side) (ys : List PyVal),
+    resolveL s.tbl ls = .ok rs → createL s rs = .ok (ys, s') → unboxOnePassL s ls = .ok (ys, s')
+  | [], rs, s, s', ys, h1, h2 => by
+    simp only [resolveL] at h1; cases h1
+    simpa [createL, unboxOnePassL] using h2
+  | l :: ls, rs, s, s', ys, h1, h2 => by
+    simp only [resolveL] at h1
+    cases hr : resolve s.tbl l with
+    | error e => simp only [hr] at h1; cases h1
+    | ok r =>
+      simp only [hr] at h1
+      cases hrl : resolveL s.tbl ls with
+      | error e => simp only [hrl] at h1; cases h1
+      | ok rs' =>
+        simp only [hrl] at h1; cases h1
+        simp only [createL] at h2
+        cases hc : create s r with
+        | error e => simp only [hc] at h2; cases h2
+        | ok p =>
+          obtain ⟨x, s1⟩ := p
+          simp only [hc] at h2
+          cases hcl : createL s1 rs' with
+          | error e => simp only [hcl] at h2; cases h2
+          | ok q =>
+            obtain ⟨xs, s2⟩ := q
+            simp only [hcl] at h2; cases h2
+            have e1 := onePass_of_twoPass l r s s1 x hr hc
+            have ht : s1.tbl = s.tbl := create_tbl r s s1 x hc
+            have e2 := onePassL_of_twoPassL ls rs' s1 s' xs (by rw [ht]; exact hrl) hcl
+            simp [unboxOnePassL, e1, e2]
+end
+
+/-- the two-pass `_unbox` and the one-pass walk succeed on the same packages with the same result and state -/
+theorem unbox_iff_onePass (s s' : Side) (l : Label) (y : PyVal) :
+    unbox s l = .ok (y, s') ↔ unboxOnePass s l = .ok (y, s') := by
+  constructor
+  · intro h
+    unfold unbox at h
+    cases hr : resolve s.tbl l with
+    | error e => simp only [hr] at h; cases h
+    | ok r => simp only [hr] at h; exact onePass_of_twoPass l r s s' y hr h
+  · intro h
+    obtain ⟨r, h1, h2⟩ := twoPass_of_onePass l s s' y h
+    simp [unbox, h1, h2]
+
+/-- `unbox ∘ box` for `_unbox` as it is now -/
+theorem unbox_box_aux (x : PyVal) (t t' : Tbl) (l : Label) (s : Side)
+    (hb : box t x = .ok (l, t')) (hres : ∀ id ∈ x.proxies, s.tbl id ≠ none) :
+    ∃ y s', unbox s l = .ok (y, s') ∧ Arrives x y ∧ s'.tbl = s.tbl := by
+  obtain ⟨y, s', hu, ha, ht⟩ := unbox_box_aux1 x t t' l s hb hres
+  exact ⟨y, s', (unbox_iff_onePass s s' l y).mpr hu, ha, ht⟩
+
+theorem unbox_counts (l : Label) (s s' : Side) (y : PyVal) (hu : unbox s l = .ok (y, s')) :
+    s'.px = recvAll s.px l.remoteRefs ∧ s'.tbl = s.tbl :=
+  unbox_counts1 l s s' y ((unbox_iff_onePass s s' l y).mp hu)
+
+theorem unbox_keeps (l : Label) (s s' : Side) (y : PyVal) (hu : unbox s l = .ok (y, s')) (h : PxInv s) :
+    PxInv s' ∧ s.next ≤ s'.next ∧ (∀ k, s.px k ≠ none → s'.pid k = s.pid k ∧ s'.px k ≠ none) :=
+  unbox_keeps1 l s s' y ((unbox_iff_onePass s s' l y).mp hu) h
+
+mutual
+/-- a package with a local reference the table does not hold is refused with KeyError in the first pass — whatever
+else it carries, wherever, and before any proxy exists -/
+theorem resolve_keyError_of_missing : ∀ (l : Label) (t : Tbl), (∃ id ∈ l.localRefs, t id = none) → resolve t l = .error .keyError
+  | .value v, t, h => by obtain ⟨id, hm, _⟩ := h; simp [Label.localRefs] at hm
+  | .tuple ls, t, h => by
+    obtain ⟨id, hm, hn⟩ := h
+    simp [resolve, resolveL_keyError_of_missing ls t ⟨id, by simpa [Label.localRefs] using hm, hn⟩]
+  | .localRef id, t, h => by
+    obtain ⟨id', hm, hn⟩ := h
+    simp [Label.localRefs] at hm
+    subst hm
+    simp [resolve, hn]
+  | .remoteRef id, t, h => by obtain ⟨id', hm, _⟩ := h; simp [Label.localRefs] at hm
+  | .other tag, t, h => by obtain ⟨id', hm, _⟩ := h; simp [Label.localRefs] at hm
+theorem resolveL_keyError_of_missing : ∀ (ls : List Label) (t : Tbl), (∃ id ∈ Label.localRefsL ls, t id = none) →
+    resolveL t ls = .error .keyError
+  | [], t, h => by obtain ⟨id, hm, _⟩ := h; simp [Label.localRefsL] at hm
+  | l :: ls, t, h => by
+    obtain ⟨id, hm, hn⟩ := h
+    simp only [Label.localRefsL, List.mem_append] at hm
+    simp only [resolveL]
+    cases hr : resolve t l with
+    | error e =>
+      -- the first pass only ever raises KeyError
+      have : e = .keyError := resolve_error_is_keyError l t e hr
+      simp [this]
+    | ok r =>
+      rcases hm with hm | hm
+      · rw [resolve_keyError_of_missing l t ⟨id, hm, hn⟩] at hr; cases hr
+      · simp [resolveL_keyError_of_missing ls t ⟨id, hm, hn⟩]
+theorem resolve_error_is_keyError : ∀ (l : Label) (t : Tbl) (e : Err), resolve t l = .error e → e = .keyError
+  | .value v, t, e, h => by simp [resolve] at h
+  | .tuple ls, t, e, h => by
+    simp only [resolve] at h
+    cases hr : resolveL t ls with
+    | error e' => simp only [hr] at h; cases h; exact resolveL_error_is_keyError ls t e hr
+    | ok rs => simp [hr] at h
+  | .localRef id, t, e, h => by
+    simp only [resolve] at h
+    cases ht : t id with
+    | none => simp only [ht] at h; cases h; rfl
+    | some n => simp [ht] at h
+  | .remoteRef id, t, e, h => by simp [resolve] at h
+  | .other tag, t, e, h => by simp [resolve] at h
+theorem resolveL_error_is_keyError : ∀ (ls : List Label) (t : Tbl) (e : Err), resolveL t ls = .error e → e = .keyError
+  | [], t, e, h => by simp [resolveL] at h
+  | l :: ls, t, e, h => by
+    simp only [resolveL] at h
+    cases hr : resolve t l with
+    | error e' => simp only [hr] at h; cases h; exact resolve_error_is_keyError l t e hr
+    | ok r =>
+      simp only [hr] at h
+      cases hl : resolveL t ls with
+      | error e' => simp only [hl] at h; cases h; exact resolveL_error_is_keyError ls t e hl
+      | ok rs => simp [hl] at h
 end
 
 /-! ### the label tree as a brine value -/
